@@ -227,7 +227,7 @@ func Generate(r *sim.Rng, prop, tier string, idx int) *sim.Case {
 		capa = hugeCapacity(r)
 	}
 	c.Knobs["capacity"] = capa
-	c.Knobs["flavor"] = int64(r.Intn(3))
+	c.Knobs["flavor"] = int64(r.Intn(4))
 	nk := 2 + r.Intn(5)
 	keys = keys[:nk]
 	n := 4 + r.Intn(20)
@@ -255,7 +255,7 @@ func Generate(r *sim.Rng, prop, tier string, idx int) *sim.Case {
 		default:
 			task.Ops = append(task.Ops, sim.Op{K: "get", S: k})
 		}
-		if c.Knobs["flavor"] == 1 {
+		if c.Knobs["flavor"] == 1 || c.Knobs["flavor"] == 3 {
 			// ECache: address the entry through one of three aliases
 			task.Ops[len(task.Ops)-1].N = int64(r.Intn(3))
 		}
@@ -299,7 +299,7 @@ func genConc(r *sim.Rng, c *sim.Case, keys []string) {
 	if r.Chance(1, 12) {
 		c.Knobs["capacity"] = hugeCapacity(r)
 	}
-	c.Knobs["flavor"] = int64(r.Intn(2))
+	c.Knobs["flavor"] = int64(sim.Pick(r, 0, 1, 1, 3))
 	if r.Chance(1, 6) {
 		// ExpirableCache under concurrency: its GetOrCreate is three cache calls, so
 		// the history is not checked against the sequential LRU; the single-flight,
@@ -326,7 +326,7 @@ func genConc(r *sim.Rng, c *sim.Case, keys []string) {
 			default:
 				task.Ops = append(task.Ops, sim.Op{K: "get", S: k})
 			}
-			if c.Knobs["flavor"] == 1 {
+			if c.Knobs["flavor"] == 1 || c.Knobs["flavor"] == 3 {
 				task.Ops[len(task.Ops)-1].N = int64(r.Intn(3))
 			}
 		}
